@@ -1292,7 +1292,7 @@ var vtACSNames = map[byte]rune{
 func (t *tScreen) buildAcsMap() {
 	acsstr := t.ti.AltChars
 	t.acs = make(map[rune]string)
-	for len(acsstr) > 2 {
+	for len(acsstr) >= 2 {
 		srcv := acsstr[0]
 		dstv := string(acsstr[1])
 		if r, ok := vtACSNames[srcv]; ok {
